@@ -409,4 +409,25 @@ theorem closing_has_timer (cfg : Cfg) (ops : List Op) : CBInv (run (start cfg) o
 example : (run (start { isServer := false }) [.feed [0x88, 0x00]]).st = .closing ∧
     (run (start { isServer := false }) [.feed [0x88, 0x00]]).tServerDrop.isSome = true := by decide
 
+/-- **late_connect_result_inert** — the application's `onConnect()` may return a pending Deferred/Future; its result
+(script op `res`, model `hsDone` = `succeedHandshake` / client `on_connect_success`) arriving when the connection is no
+longer CONNECTING changes nothing at all: no state change, nothing written, no callback.  (The real code re-opened a
+CLOSED connection here until the repair recorded as `onOpen-after-onClose:deferred-onConnect`; the general statements
+`state_monotone`, `silent_after_onClose`, `dead_forever` quantify over `hsDone` like over every other operation, this is
+the pointwise form.) -/
+theorem late_connect_result_inert (s : S) (h : s.st ≠ .connecting) : stepCore s .hsDone = s := by
+  simp [stepCore, handshakeDone, h]
+
+/-- … and while the connection is still CONNECTING the same result opens it, cancelling the opening-handshake timer -/
+theorem connect_result_in_time_opens (s : S) (h : s.st = .connecting) :
+    (stepCore s .hsDone).st = .opened ∧ (stepCore s .hsDone).tOpenHs = none := by
+  simp only [stepCore, handshakeDone, h]
+  simp
+  split <;> simp [armPingNext, S.timer]
+
+/-- a pending `onConnect` leaves the opening-handshake timer in charge: a server still CONNECTING when the timer's deadline
+passes is dropped, and the result arriving afterwards is ignored (corpus case `pending-onconnect-timeout-then-result-server`) -/
+example : (run (startConnecting { isServer := true, openHsTimeout := 1048576 }) [.advance 1048584, .hsDone]).st = .closed := by
+  decide
+
 end Abverif.Ws
